@@ -90,6 +90,8 @@ def enc_64(v):
     if v is None:
         return None
     if isinstance(v, np.ndarray):
+        if v.size == 0:
+            return {"arr": [], "dtype": str(v.dtype), "shape": list(v.shape)}
         if v.dtype.kind != "M":
             return {"bad": "ndarray dtype %s" % v.dtype, "n": int(v.size)}
         return {"arr": [int(x) for x in v.astype("datetime64[ns]").astype("int64").ravel()],
